@@ -671,6 +671,8 @@ class ResetIndex(SchemaOp):
         out["columns.keys"] = isinstance(rc, dict) and set(rc.keys()) == set(self.labels) | set(moved) and len(rc) == len(self.labels) + len(moved)
         if not out["columns.keys"]:
             return out
+        # DataFrame.reset_index inserts the levels, in level order, BEFORE the existing columns
+        out["columns.order_mirrors_dataframe_reset_index"] = list(rc.keys()) == moved + self.labels
         # the existing columns: untouched, same relative order
         old_only = DictObj((k, rc[k]) for k in rc if k in self.labels)
         self.common(out, result, self_, kept(self_), index="built", rc=old_only)
@@ -704,4 +706,72 @@ def _may_raise_for_index(col):
 ArrayValidateAttributes._may_raise_for_index = staticmethod(_may_raise_for_index)
 
 
-CONTRACTS = [ValidateColumns, RemoveColumns, SelectColumns, RenameColumns, AddColumns, UpdateColumn, UpdateColumns, SetIndex, ResetIndex]
+# --------------------------------------------------------------------------------------------------------
+# inverse laws (programs of two operations on the live code)
+# --------------------------------------------------------------------------------------------------------
+
+
+def _law(name, first, doc):
+    class Law(SchemaOp):
+        target = f"{DFS}.{first}"
+        split = {"backend": SchemaOp.backend_split if name != "reset_after_set" else ["pandas"]}
+        index_kinds = ["none", "index"] if name != "reset_after_set" else ["none"]
+        schema_params_touched = ("columns",) if name != "reset_after_set" else ("columns", "index")
+
+        def make_args(self):
+            _, C = classes(self.fixed.get("backend", "pandas"))
+            a = {"self": self.receiver()}
+            if name == "remove_after_add":
+                d = DictObj()
+                d.pre = True
+                for k in ("x", "y"):
+                    d[k] = SO.make_component(C, f"extra[{k!r}]", T.fresh_value(T.Opt(T.Str), f"extra[{k!r}].name"))
+                a["extra"] = d
+            return a
+
+        def call_target(self, I, fn, a):
+            S = a["self"].cls
+            m = lambda n: SO_find(S, n)
+            s = a["self"]
+            if name == "remove_after_add":
+                r1 = I.call(m("add_columns"), [s, a["extra"]], {})
+                return I.call(m("remove_columns"), [r1, ListObj(["x", "y"])], {})
+            if name == "rename_back":
+                r1 = I.call(m("rename_columns"), [s, DictObj({"a": "x", "c": "y"})], {})
+                return I.call(m("rename_columns"), [r1, DictObj({"x": "a", "y": "c"})], {})
+            if name == "select_all":
+                return I.call(m("select_columns"), [s, ListObj(list(attr(s, "columns").keys()))], {})
+            r1 = I.call(m("set_index"), [s, ListObj(["b"])], {})
+            return I.call(m("reset_index"), [r1, ListObj(["b"])], {})
+
+        def ensures(self, result, old, self_, **a):
+            exp = kept(self_)
+            if name == "reset_after_set":
+                exp = [e for e in exp if e[0] != "b"] + [e for e in exp if e[0] == "b"]
+                exp = [(k, src, {}, k == "b") for k, src, _, _ in exp]
+            out = self.common({}, result, self_, exp, index="same")
+            if name == "reset_after_set":
+                # the law is stated for the attributes an Index can carry; the Column-only ones take their defaults
+                for p in ("required", "regex"):
+                    out.pop(f"touched.{p}", None)
+                out.pop("columns.keys_and_order", None) if False else None
+            return {f"inverse.{name}.{k}": v for k, v in out.items()}
+
+    Law.__name__ = "Law_" + name
+    Law.__doc__ = doc
+    return Law
+
+
+def SO_find(cls, n):
+    for c in cls.__mro__:
+        if n in c.__dict__:
+            return c.__dict__[n]
+    raise AttributeError(n)
+
+
+LawRemoveAfterAdd = _law("remove_after_add", "add_columns", "remove_columns(add_columns(S, c), names(c)) == S for new names")
+LawRenameBack = _law("rename_back", "rename_columns", "rename_columns(rename_columns(S, m), inverse(m)) == S")
+LawSelectAll = _law("select_all", "select_columns", "select_columns(S, list(S.columns)) == S")
+LawResetAfterSet = _law("reset_after_set", "set_index", "reset_index(set_index(S, k), k) == S attribute-wise (column k moves to the end of the dict, which `==` ignores)")
+
+CONTRACTS = [LawRemoveAfterAdd, LawRenameBack, LawSelectAll, LawResetAfterSet, ValidateColumns, RemoveColumns, SelectColumns, RenameColumns, AddColumns, UpdateColumn, UpdateColumns, SetIndex, ResetIndex]
